@@ -33,6 +33,8 @@ def build_case(cid, rng):
     links = []   # kind per link
     gen1 = rng.random() < 0.35
     gen_used = []
+    byval1 = rng.random() < 0.25
+    byval_used = []
     kinds = ["fn", "fn", "mod", "leaf_trait", "inversion", "concrete"] + (["impl_future"] if (is_async and (with_lt or not extra)) else [])
     L, GT = [], []
     aw = ".await" if is_async else ""
@@ -69,10 +71,18 @@ def build_case(cid, rng):
         bound = ("impl " + nxt_trait) if not last else "impl ::core::marker::Sized"
         if use_iter:
             bound = "(%s + It%d)" % (bound, i)
+        # the first link may take its dependency by value (`deps: impl L2 + Copy`): the trait method then takes `self`
+        byval_here = i == 1 and byval1 and kind in ("fn", "mod")
+        AMP = "" if byval_here else "&"
+        bound_i = bound
+        if byval_here:
+            extra_b = " + ::core::marker::Copy + ::core::marker::Send + ::core::marker::Sync"
+            bound_i = (bound[:-1] + extra_b + ")") if bound.startswith("(") else ("(" + bound + extra_b + ")")
+            byval_used.append(True)
         if kind == "fn":
-            L.append("#[::entrait::entrait(pub L%d%s)] /*@inv%d*/\n%sfn l%d%s(deps: &%s, x: u64%s) -> u64 %s" % (i, OPT, i, asy, i, Gi, bound, SPi, body_t))
+            L.append("#[::entrait::entrait(pub L%d%s)] /*@inv%d*/\n%sfn l%d%s(deps: %s%s, x: u64%s) -> u64 %s" % (i, OPT, i, asy, i, Gi, AMP, bound_i, SPi, body_t))
         elif kind == "mod":
-            L.append("#[::entrait::entrait(pub L%d%s)] /*@inv%d*/\npub mod lm%d { use super::*; pub %sfn l%d%s(deps: &%s, x: u64%s) -> u64 %s }" % (i, OPT, i, i, asy, i, Gi, bound, SPi, body_t))
+            L.append("#[::entrait::entrait(pub L%d%s)] /*@inv%d*/\npub mod lm%d { use super::*; pub %sfn l%d%s(deps: %s%s, x: u64%s) -> u64 %s }" % (i, OPT, i, i, asy, i, Gi, AMP, bound_i, SPi, body_t))
         elif kind == "concrete":
             # concrete dependency: the generated leaf trait is itself entraited (nested expansion) for Impl<T>
             L.append("#[::entrait::entrait(pub L%d%s)] /*@inv%d*/\n%sfn l%d%s(deps: &App, x: u64%s) -> u64 { let deps2 = ::entrait::Impl::new(*deps); let deps = &deps2; %s%s %s }" % (
@@ -120,7 +130,7 @@ def build_case(cid, rng):
          '    ::vrt::fact("trait_allocs", a1 - a0); ::vrt::fact("direct_allocs", a2 - a1); ::vrt::fact("trait_allocs_again", a3 - a2);',
          '    ::vrt::fact("trait_result", r1); ::vrt::fact("direct_result", r2);',
          "}"]
-    return Case(cid, "\n".join(D) + "\n", meta={"depth": depth, "async": is_async, "links": links, "explicit_lifetime": with_lt, "extra_param": (extra[0] if extra else None), "generic_first_link": bool(gen_used), "no_send": no_send,
+    return Case(cid, "\n".join(D) + "\n", meta={"depth": depth, "async": is_async, "links": links, "explicit_lifetime": with_lt, "extra_param": (extra[0] if extra else None), "generic_first_link": bool(gen_used), "by_value_first_link": bool(byval_used), "no_send": no_send,
                                                 "nontrivial": is_async or depth >= 2})
 
 
